@@ -5,6 +5,7 @@ mod comp_ipp;
 mod comp_lc;
 mod comp_ped;
 mod comp_r1cs;
+mod comp_zorro;
 mod gen;
 mod run;
 
@@ -269,6 +270,11 @@ fn main() {
     let args: Vec<String> = std::env::args().skip(1).collect();
     match args.get(0).map(|s| s.as_str()) {
         Some("gen") => cmd_gen(&args[1..]),
+        Some("zorro") => {
+            let seed: u64 = arg(&args[1..], "--seed", "1").parse().unwrap();
+            let tier = arg(&args[1..], "--tier", "quick");
+            print!("{}", comp_zorro::run(seed, &tier));
+        }
         Some("msmcheck") => cmd_msmcheck(&args[1..]),
         Some("msmcheck2") => cmd_msmcheck2(&args[1..]),
         _ => {
